@@ -4,7 +4,7 @@ import Ark.Model.Proto
   Driver dispatch for C11 (square roots, Legendre symbols, coordinate recovery).
 
   Field header (cached by id):  `cfg <id> <kind> <N> <p> <constants…> => <SQRT_PRECOMP of the field>`
-    fp   : <TWO_ADIC_ROOT_OF_UNITY>
+    fp   : <TWO_ADIC_ROOT_OF_UNITY>     (`fpx`: the same, for a config that overrides `SQRT_PRECOMP`)
     fp2  : <pre1> <hooks2> <nr> <frobC1>
     fp3  : <pre1> <nr> <frobC1> <frobC2> <TWO_ADICITY> <QUADRATIC_NONRESIDUE_TO_T> <TRACE_MINUS_ONE_DIV_TWO>
     fp4  : <pre1> <hooks2> <nr2> <frob2> <nr4> <frob4>
@@ -108,6 +108,9 @@ structure CurveCfg where
 structure Cache where
   insts : List (String × Inst) := []
   curves : List (String × CurveCfg) := []
+  /-- Euler's criterion of the last target (consecutive ops on the same input share it) -/
+  lastKey : String := ""
+  lastEuler : Option Int := none
 
 def vs (impl spec : String) : String := if impl == spec then "ok" else "bad:want=" ++ spec
 
@@ -125,8 +128,7 @@ def euler (I : Inst) (x : List Nat) : Option Int :=
 
 /-- is `x` a square?  brute force on small fields (cross-checked with Euler), Euler otherwise;
     `none` = the two specs disagree (a bug of the check itself) -/
-def isSquare (I : Inst) (x : List Nat) : Option Bool :=
-  let e := euler I x
+def isSquare (I : Inst) (e : Option Int) (x : List Nat) : Option Bool :=
   if I.small then
     let b := I.squares.get.getD (code I.p x) false
     match e with
@@ -139,8 +141,8 @@ def parseEl (I : Inst) (s : String) : Option (List Nat) := do
   if l.length == I.n && l.all (· < I.p) then some l else none
 
 /-- verdict for a reported square root of `x` -/
-def sqrtVerdict (I : Inst) (x : List Nat) (impl : String) : String :=
-  match isSquare I x with
+def sqrtVerdict (I : Inst) (eu : Option Int) (x : List Nat) (impl : String) : String :=
+  match isSquare I eu x with
   | none => "bad:spec-inconsistent"
   | some sq =>
     if impl == "panic" then "bad:panic"
@@ -159,18 +161,43 @@ def pairVerdict (I : Inst) (rhs : List Nat) (s1 s2 : List Nat) : String :=
   else if cmpSpec s1 s2 == .gt then "bad:order"
   else "ok"
 
-def fieldVerdict (I : Inst) (op : String) (args : List String) (impl : String) : Option String := do
+/-- the element whose quadratic character decides the verdict of an op: the argument itself, the
+    right-hand side `x³ + a·x + b`, or `(1 − y²)·(a − d·y²)` -/
+def target (I : Inst) (op : String) (args : List String) : Option (List Nat) := do
   let p := I.p
   match op, args with
-  | "sqrt", [x] => let x ← parseEl I x; some (sqrtVerdict I x impl)
+  | "sqrt", [x] => parseEl I x
+  | "legendre", [x] => parseEl I x
+  | "sqrtip", [x] => parseEl I x
+  | "ysfromx", [a, b, x] =>
+    let a ← parseEl I a; let b ← parseEl I b; let x ← parseEl I x
+    some (vadd p (vadd p (I.mul (I.mul x x) x) (I.mul a x)) b)
+  | "ptfromx", [a, b, _, x] =>
+    let a ← parseEl I a; let b ← parseEl I b; let x ← parseEl I x
+    some (vadd p (vadd p (I.mul (I.mul x x) x) (I.mul a x)) b)
+  | "xsfromy", [a, d, y] =>
+    let a ← parseEl I a; let d ← parseEl I d; let y ← parseEl I y
+    let y2 := I.mul y y
+    some (I.mul (vsub p I.one y2) (vsub p a (I.mul d y2)))
+  | "ptfromy", [a, d, _, y] =>
+    let a ← parseEl I a; let d ← parseEl I d; let y ← parseEl I y
+    let y2 := I.mul y y
+    some (I.mul (vsub p I.one y2) (vsub p a (I.mul d y2)))
+  | _, _ => none
+
+/-- `eu` = Euler's criterion of `target I op args` -/
+def fieldVerdict (I : Inst) (eu : Option Int) (op : String) (args : List String) (impl : String) : Option String := do
+  let p := I.p
+  match op, args with
+  | "sqrt", [x] => let x ← parseEl I x; some (sqrtVerdict I eu x impl)
   | "legendre", [x] =>
     let x ← parseEl I x
-    match euler I x, isSquare I x with
+    match eu, isSquare I eu x with
     | some v, some _ => some (vs impl (hexInt v))
     | _, _ => some "bad:spec-inconsistent"
   | "sqrtip", [x] =>
     let x ← parseEl I x
-    match isSquare I x with
+    match isSquare I eu x with
     | none => some "bad:spec-inconsistent"
     | some sq =>
       if impl == "panic" then some "bad:panic" else
@@ -186,7 +213,7 @@ def fieldVerdict (I : Inst) (op : String) (args : List String) (impl : String) :
   | "ysfromx", [a, b, x] =>
     let a ← parseEl I a; let b ← parseEl I b; let x ← parseEl I x
     let rhs := vadd p (vadd p (I.mul (I.mul x x) x) (I.mul a x)) b
-    match isSquare I rhs with
+    match isSquare I eu rhs with
     | none => some "bad:spec-inconsistent"
     | some sq =>
       if impl == "panic" then some "bad:panic"
@@ -200,7 +227,7 @@ def fieldVerdict (I : Inst) (op : String) (args : List String) (impl : String) :
   | "ptfromx", [a, b, g, x] =>
     let a ← parseEl I a; let b ← parseEl I b; let x ← parseEl I x
     let rhs := vadd p (vadd p (I.mul (I.mul x x) x) (I.mul a x)) b
-    match isSquare I rhs with
+    match isSquare I eu rhs with
     | none => some "bad:spec-inconsistent"
     | some sq =>
       if impl == "panic" then some "bad:panic"
@@ -224,7 +251,7 @@ def fieldVerdict (I : Inst) (op : String) (args : List String) (impl : String) :
     let den := vsub p a (I.mul d y2)
     let denZero := den.all (· == 0)
     let numZero := num.all (· == 0)
-    match isSquare I (I.mul num den) with
+    match isSquare I eu (I.mul num den) with
     | none => some "bad:spec-inconsistent"
     | some sq =>
       if denZero && numZero then some "bad:degenerate-curve"
@@ -252,7 +279,7 @@ def fieldVerdict (I : Inst) (op : String) (args : List String) (impl : String) :
     let num := vsub p I.one y2
     let den := vsub p a (I.mul d y2)
     let denZero := den.all (· == 0)
-    match isSquare I (I.mul num den) with
+    match isSquare I eu (I.mul num den) with
     | none => some "bad:spec-inconsistent"
     | some sq =>
       let solvable := !denZero && sq
@@ -400,10 +427,11 @@ def preVerdict (p : Nat) (sh : Shape) (impl : String) (wantNone : Bool) : String
     if wantNone then (match pre with | .none => "ok" | _ => "bad:want=none")
     else if validPre p sh (p ^ sh.deg) pre then "ok" else "bad:invalid-sqrt-constants"
 
-def buildFp (n p : Nat) (root : Nat) (impl : String) : Option Built := do
+def buildFp (explicit : Bool) (n p : Nat) (root : Nat) (impl : String) : Option Built := do
   let D := fpD p
   let mpre : Option (Precomp (Fp p)) := sqrtPrecomputation n p (Fp.ofNat p root)
-  let ms := precompStr D mpre
+  -- `fpx`: the config overrides `SQRT_PRECOMP`; the model takes the constants as given
+  let ms ← if explicit then (parsePre impl).map Pre.str else some (precompStr D mpre)
   -- the model runs with the constants the implementation reports
   let pre ← (parsePre impl).bind (toPrecomp D)
   let S := fpSqrtD dbg p pre
@@ -499,7 +527,8 @@ def buildFp12 (n p : Nat) (pre1 : Pre) (hooks2 : String) (nr2 : Nat) (tbl2 : Lis
 
 def build (kind : String) (n p : Nat) (rest : List String) (impl : String) : Option Built := do
   match kind, rest with
-  | "fp", [root] => buildFp n p (← parseHex? root) impl
+  | "fp", [root] => buildFp false n p (← parseHex? root) impl
+  | "fpx", [root] => buildFp true n p (← parseHex? root) impl
   | "fp2", [pre1, h, nr, tbl] =>
     buildFp2 n p (← parsePre pre1) h (← parseHex? nr) (← parseList? tbl) impl
   | "fp3", [pre1, nr, c1, c2, s, z, t] =>
@@ -529,19 +558,20 @@ def run (cache : Cache) (op : String) (args : List String) (impl : String) :
     some ({ cache with curves := (cid, { kind := kind, fid := fid, a := a, b := b }) :: cache.curves.filter (fun e => e.1 != cid) },
       "ok", vs impl "ok")
   | _, id :: rest =>
-    if op == "ysfromx" || op == "ptfromx" || op == "xsfromy" || op == "ptfromy" then
-      let C ← (cache.curves.find? (fun e => e.1 == id)).map (·.2)
-      if (C.kind == "sw") != (op == "ysfromx" || op == "ptfromx") then none else
-      let I ← (cache.insts.find? (fun e => e.1 == C.fid)).map (·.2)
-      let args' := C.a :: C.b :: rest
-      let m ← I.model op args'
-      let v ← fieldVerdict I op args' impl
-      some (cache, m, v)
-    else
-      let I ← (cache.insts.find? (fun e => e.1 == id)).map (·.2)
-      let m ← I.model op rest
-      let v ← fieldVerdict I op rest impl
-      some (cache, m, v)
+    let curveOp := op == "ysfromx" || op == "ptfromx" || op == "xsfromy" || op == "ptfromy"
+    let (fid, args') ←
+      if curveOp then do
+        let C ← (cache.curves.find? (fun e => e.1 == id)).map (·.2)
+        if (C.kind == "sw") != (op == "ysfromx" || op == "ptfromx") then none
+        else some (C.fid, C.a :: C.b :: rest)
+      else some (id, rest)
+    let I ← (cache.insts.find? (fun e => e.1 == fid)).map (·.2)
+    let m ← I.model op args'
+    let t ← target I op args'
+    let key := id ++ " " ++ hexList t
+    let eu := if cache.lastKey == key then cache.lastEuler else euler I t
+    let v ← fieldVerdict I eu op args' impl
+    some ({ cache with lastKey := key, lastEuler := eu }, m, v)
   | _, _ => none
 
 end Ark.DrvC11
